@@ -93,7 +93,11 @@ TYPES: list[Any] = [A, B, C, Dd, Gen[int]]
 TNAMES = ["A", "B", "C", "D", "G[int]"]
 VCLS = [A, B, C, Dd]
 NTYPES = len(TYPES)
-VALID_NAMES = ["default", "a", "b"]  # (plus "x_1" / "A9" through EXTRA_VALID in generated adds)
+VALID_NAMES = ["default", "a", "b"]  # (plus the "bulk<k>" names of the occasional large registration run)
+
+
+def _valid_name(name: Any) -> bool:
+    return name in VALID_NAMES or (isinstance(name, str) and name.startswith("bulk") and name[4:].isdigit())
 INVALID_NAMES = ["", "a.b", "a b", "a:b"]
 LOOKUP_APIS = ["m_nowait", "m_async", "f_nowait", "f_async", "m_list", "f_list", "inj_sync", "inj_async"]
 NEEDS_CURRENT = {"f_nowait", "f_async", "f_list", "inj_sync", "inj_async"}
@@ -183,7 +187,7 @@ class Model:
             reasons.add("types")
         if op.get("none_value"):
             reasons.add("none")
-        if op["name"] not in VALID_NAMES:
+        if not _valid_name(op["name"]):
             reasons.add("name")
         eff = tuple(types) if types else (op["vcls"],)
         if not op.get("bad_types") and any((t, op["name"]) in c.res for t in eff):
@@ -206,7 +210,7 @@ class Model:
     def addf_reasons(self, ctx: int, op: dict) -> set[str]:
         c = self.ctxs[ctx]
         reasons = set()
-        if op["name"] not in VALID_NAMES:
+        if not _valid_name(op["name"]):
             reasons.add("name")
         if op.get("none_type"):
             reasons.add("types")
@@ -583,6 +587,22 @@ def histories(draw: Any, prop: str, tier: str) -> dict:
     main = _GTask([0])
     n = d.int(5, 40 if tier == "quick" else 70)
     ops = []
+    if d.pct(3):
+        # a context that holds dozens of resources / factories before anything else happens
+        # ("for all context trees", not only for tables of a handful of entries)
+        for k in range(d.pick([17, 20, 33, 40])):
+            t = d.int(0, 3)
+            if d.pct(55):
+                op = {"op": "addf", "ctx": 0, "fid": g.next_fid, "types": [t], "name": f"bulk{k}", "mode": "arg", "async": d.pct(30), "cps": 0,
+                      "via": "method"}
+                g.next_fid += 1
+                g.m.addf_apply(0, op)
+            else:
+                op = {"op": "add", "ctx": 0, "vcls": t, "vid": g.next_vid, "name": f"bulk{k}", "types": [t], "via": "method"}
+                g.next_vid += 1
+                g.m.add_apply(0, op, ("v", op["vid"]))
+            ops.append(op)
+        g.bulk = True
     for _ in range(n):
         o = g.one(main, allow_par=True)
         if o is not None:
@@ -597,7 +617,8 @@ def _reentrant_cases(draw: Any) -> dict:
     d = D(draw)
     if d.pct(20):
         return {"kind": "reentrant", "family": "retry", "backend": draw(BACKEND), "sched_seed": draw(SEED), "racers": d.int(2, 5),
-                "cps": d.int(0, 3), "api": d.pick(["m_async", "f_async", "inj_async"]), "nested": d.bool(), "stagger": d.int(0, 2)}
+                "cps": d.int(0, 3), "api": d.pick(["m_async", "f_async", "inj_async"]), "nested": d.bool(), "stagger": d.int(0, 2),
+                "dur": d.pick([0, 0, 0, 35, 100]), "pre": d.pick([0, 0, 0, 15, 16, 20])}
     if d.pct(35):
         return {"kind": "reentrant", "family": "chain", "backend": draw(BACKEND), "sched_seed": draw(SEED), "a_async": d.bool(),
                 "b_async": d.bool(), "api": d.pick(reentrant.APIS), "nested": d.bool(), "racers": d.int(1, 4), "b_first": d.pct(30),
